@@ -207,3 +207,61 @@ Theorem C09_create_set_member_refuted :
   end.
 Proof. vm_compute. reflexivity. Qed.
 Print Assumptions C09_create_set_member_refuted.
+
+(* ======================================================================== *)
+(* SET MODE at document level (round gapE; proofs Proofs/C09set.v).
+
+   set_value(path, value, mustexist=False, value_format=fmt) on a straight path that does not exist
+   completely = the construction (Create.walk) followed by _update_node on the coordinate the walk yields
+   (Create.create_set).  Composed here, for every document satisfying the invariants of a loaded
+   document (C03guard.doc_inv: containers carry the anchor attribute and sit at one place, keys pairwise
+   different, keys / set members scalars), every straight path, value, format and both oracles:
+     - the yielded coordinate IS the place of the created node (parent object + normalised reference:
+       C09set.gpath_last, seg_child_get_change), the created node's identity is fresh, so no container and
+       no anchor-capable key on the way to it is taken for an alias (C09set.walk_gpath);
+     - hence the whole-document walk of _update_node leaves every step of the path in place and puts the
+       node make_new_node built where the created node was (C09set.recurse_path);
+   so walking the path in the FINAL document reaches a node holding the value converted to the requested
+   format ([conv]: C03_new_node_value).
+   Guard [creates] = "something is to be created, and not below a set" (listed finding F25, witness
+   C09_create_set_member_refuted above).  Input condition [vo_ok] (Spec/C09setguard.v): when the caller's value
+   OBJECT is already an object of the document (vo = Some o: an interned scalar), it is neither a
+   container nor an anchor-capable mapping key of it - a Python scalar never is. *)
+From YP Require Import C03guard C09setguard C09set.
+
+Theorem C09_create_set_composes_partial : forall lit fl segs value fmt vo d st',
+  doc_inv d = true -> creates d segs = true -> vo_ok d vo = true ->
+  create_set lit fl segs value fmt vo d = SDone st' ->
+  exists nn i, conv lit fl fmt value = ROk nn /\ resolve (fst st') segs = Some (NLeaf i (nn_val nn)).
+Proof. exact create_set_composes. Qed.
+Print Assumptions C09_create_set_composes_partial.
+
+(* the two halves, for any document / any identity roid: along a path on which no container is the object roid
+   and no mapping key is an anchor-capable object roid, recurse() puts the new node at the end of the path *)
+Theorem C09_update_along_path : forall roid w pc new, node_oid w = roid ->
+  forall segs n poid pref,
+  gpath roid w pc n segs -> path_last n segs = Some (poid, pref) ->
+  resolve (recurse poid pref roid new n) segs = Some new.
+Proof. exact recurse_path. Qed.
+Print Assumptions C09_update_along_path.
+
+(* non-vacuity: {a: [1]} set a[3].x := 7 as INT (three missing levels below an existing prefix); {a: null}
+   set a.b.c := v (the prefix ends at a null); {a: [1]} set a[-1] ... exists already, so creates = false;
+   a value object the document already holds (vo = Some 3, the interned int 1 at a[0]) is inside vo_ok *)
+Example C09_create_set_composes_nonvacuous :
+  doc_inv docA = true /\ creates docA [SKey "a" (Some 1%N); SIdx 3; SKey "x" None] = true /\
+  vo_ok docA None = true /\ vo_ok docA (Some 3%N) = true /\
+  (match create_set no_lit no_fl [SKey "a" (Some 1%N); SIdx 3; SKey "x" None] (PInt 7) FInt None docA with
+   | SDone (d, _) =>
+       option_map erase (resolve d [SKey "a" (Some 1%N); SIdx 3; SKey "x" None]) = Some (DLeaf (PInt 7))
+   | SFailed _ _ => False
+   end) /\
+  doc_inv docN = true /\ creates docN [SKey "a" (Some 1%N); SKey "b" None; SKey "c" None] = true /\
+  (match create_set no_lit no_fl [SKey "a" (Some 1%N); SKey "b" None; SKey "c" None] (PStr "v") FBare None docN with
+   | SDone (d, _) =>
+       option_map erase (resolve d [SKey "a" (Some 1%N); SKey "b" None; SKey "c" None]) = Some (DLeaf (PStr "v"))
+   | SFailed _ _ => False
+   end) /\
+  (* the guard is needed: below a set the hypotheses fail (creates = false) and the path does not resolve *)
+  creates docS [SKey "s" (Some 1%N); SKey "y" None] = false.
+Proof. vm_compute. repeat split. Qed.
